@@ -7,7 +7,7 @@ CONSTANTS
   Q = 8
   ThinLin = 600
   ThinIdent = 20
-  ThinDov = 12
+  ThinDov = 24
   ThinFit = 120
   Emit = TRUE
 INVARIANTS Theorems Vector
